@@ -11,6 +11,10 @@ package sync2
 // sync.Map fork; they are ASSUMED (property C04, its linearizability, is not proved by this technique) and
 // are listed as unchecked assumptions in the evidence of every property that uses them.
 
+// BOUNDED stand-in for the trusted contract below (never counted as proved): every sequence of up to N calls of
+// Load/Store/LoadOrStore/LoadAndDelete/Delete/Range over 3 keys x 2 values from the zero Map, compared with map[K]V.
+bounded C03 4 5 sync2.Map sequential contract vs builtin map, all call sequences up to the bound over 3 keys x 2 values
+
 func Map.Load
   trusted sequential specification of sync2.Map (C04 is not proved)
   ensures ok == has(absmap(m), key) && value == absmap(m)[key]
